@@ -160,9 +160,18 @@ def run(chk):
                 exempt = False
                 if k == 1 and fq == 'parser._split_msh':
                     # fields = msh.split(field_sep) after ^MSH(?P<field_sep>\S) matched: the separator occurs at least once
-                    src = ' '.join(norm(a) for a in own_nodes(fi.node) if isinstance(a, ast.Assign))
-                    exempt = "re.match('^MSH(?P<field_sep>\\\\S)', content)" in src and '.split(field_sep)' in src and \
-                        "m.group('field_sep')" in src
+                    # the separator that the line is split on was captured right after the literal MSH by re.match (anchored at 0):
+                    # it occurs in the line at least once, so the split yields at least two pieces
+                    pats = [a.value.args[0].value for a in own_nodes(fi.node) if isinstance(a, ast.Assign) and
+                            isinstance(a.value, ast.Call) and norm(a.value.func) == 're.match' and a.value.args and
+                            isinstance(a.value.args[0], ast.Constant) and isinstance(a.value.args[0].value, str)]
+                    grp = [norm(a.targets[0]) for a in own_nodes(fi.node) if isinstance(a, ast.Assign) and isinstance(a.value, ast.Call) and
+                           isinstance(a.value.func, ast.Attribute) and a.value.func.attr == 'group']
+                    splits = [norm(a.value.args[0]) for a in own_nodes(fi.node) if isinstance(a, ast.Assign) and
+                              norm(a.targets[0]) == n.value.id and isinstance(a.value, ast.Call) and
+                              isinstance(a.value.func, ast.Attribute) and a.value.func.attr == 'split' and a.value.args]
+                    exempt = any(p_.lstrip('^').startswith('MSH(?P<') and '\\S)' in p_ for p_ in pats) and \
+                        any(sp in grp for sp in splits)
                 construct = '%s: %s[%d]' % (fq, n.value.id, k)
                 chk.ob('C15-I', construct, guarded or exempt,
                        '' if (guarded or exempt) else '`%s` is evaluated without an IndexError guard: a header with fewer than %d '
